@@ -357,4 +357,42 @@ theorem RInv.final_readAll {fed rest : Bytes} (env : Env) (app : App) (h : RInv 
   rw [reads_append, reads_append, ← e3]
   simp [Obs.reads]
 
+/-- the last event is a `readAll` from idle context, however much of the body has been delivered: everything
+    that arrived (up to `N` bytes) has been obtained — arrived bytes stay readable -/
+theorem RInv.final_readAll_partial {fed rest : Bytes} (env : Env) (app : App) (h : RInv evs head N fed s)
+    (hbrk : breakOn CRLF2 fed = some (head, rest)) (k : Nat) :
+    Obs.reads (Sock.stepK env app (s, k) (.api .readAll)).1.log = rest.take N ∧
+    Obs.countP Obs.isHp (Sock.stepK env app (s, k) (.api .readAll)).1.log = 1 := by
+  have hrs : s.rs ≠ .headers := by
+    intro hc
+    obtain ⟨a, hb, B, hm, _, hrel⟩ := h
+    have := (hrel.1 hc).2
+    rw [hbrk] at this; exact absurd this (by simp)
+  obtain ⟨rest', t, e1, e2, e3, e4⟩ := h.rest_eq hbrk (List.prefix_refl _) hrs
+  have hF := C02L.breakOn_some_eq CRLF2 _ _ _ hbrk
+  have hr : rest' = rest := by
+    rw [e1] at hF
+    simp only [List.append_assoc] at hF
+    exact List.append_cancel_left (List.append_cancel_left hF)
+  subst hr
+  obtain ⟨a, hb, B, hm, _, hrel⟩ := h
+  have hm1 := hm.ev k
+  rw [stepK_alive env app s k _ hm.alive]
+  show Obs.reads (Sock.step env app _ _).log = _ ∧ Obs.countP Obs.isHp (Sock.step env app _ _).log = 1
+  unfold Sock.step
+  rw [if_neg (by simp [hm.alive])]
+  show Obs.reads (Sock.api env app _ _).log = _ ∧ Obs.countP Obs.isHp (Sock.api env app _ _).log = 1
+  rw [hm1.api_readAll env app (Or.inl rfl)]
+  have hm2 := hm1.apiPrim_readAll env (Or.inl rfl)
+  have c := hm1.apiPrim_sameCtl env .readAll rfl
+  have hrs2 : (Sock.apiPrim env { s with log := s.log ++ [Obs.ev k] } .readAll).rs ≠ .headers := by
+    rw [c.1]; exact hrs
+  refine ⟨?_, by rw [hm2.hp]; simp [hrs2]⟩
+  unfold Sock.apiPrim
+  rw [if_neg (by simp [hm.alive])]
+  rw [readAll_data _ hm1.ioOpen (by exact hrs)]
+  show Obs.reads (s.log ++ [Obs.ev k] ++ [Obs.rd (s.qio ++ s.readBuffer)]) = _
+  rw [reads_append, reads_append, ← e3]
+  simp [Obs.reads]
+
 end Qhttp.C02
